@@ -108,15 +108,17 @@ func SendMissingStz(lastSent int, s Sender, uaq *stanza.UnAckQueue) error {
 		uaq.RWMutex.Unlock()
 		return nil
 	}
-	last := uaq.Uslice[len(uaq.Uslice)-1]
-	if last.Id > lastSent {
-		// Remove sent stanzas from the queue
-		uaq.PopN(lastSent - last.Id)
+	// Remove the stanzas the server has handled from the queue: ids are the sequence numbers of the
+	// stanzas sent on this session, so everything up to lastSent is acknowledged
+	first := uaq.Uslice[0]
+	uaq.PopN(lastSent - first.Id + 1)
+	if len(uaq.Uslice) > 0 {
 		// Re-send non acknowledged stanzas
 		for _, elt := range uaq.PopN(len(uaq.Uslice)) {
 			eltStz := elt.(*stanza.UnAckedStz)
 			err := s.SendRaw(eltStz.Stz)
 			if err != nil {
+				uaq.RWMutex.Unlock()
 				return err
 			}
 
